@@ -30,7 +30,7 @@ CLAIMS = {
         "two_site_svd respects its cap, and that over every sequence of split / centre-move operations with adversarial spectra "
         "each bond stays below max(cap, min_bond_dim, its initial value). The model's binary64 instance is compared bit-exactly "
         "with the real split_mps_tensor / two_site_svd on injected spectra (ties, rank-deficient, zero, thresholds at exact "
-        "cumulative weights); whole simulator runs with caps 1..6 (digital, analog, noisy) are searched for a bond above the bound. Extended: the rank-selection code is regenerated from the source by a translator and proved equal to the model (obligations); svd_shift_bounded for the uncapped SVD centre shift; whole runs record the real bonds at every sampling point, incl. cap 1, non-uniform initial bonds, noisy threshold-0 runs.",
+        "cumulative weights); whole simulator runs with caps 1..6 (digital, analog, noisy) are searched for a bond above the bound. Extended: the rank-selection code is regenerated from the source by a translator and proved equal to the model (obligations); svd_shift_bounded for the uncapped SVD centre shift; whole runs record the real bonds at every sampling point, incl. cap 1, non-uniform initial bonds, noisy threshold-0 runs. BUG whole runs in relative mode.",
         COMMON_NOTE + "Modelled, not verified: LAPACK validity; that QR/one-site updates never enlarge a bond (checked by the whole-run search only).",
         "DESIGN.md §3 C08"),
     "C09": (
@@ -112,7 +112,7 @@ CLAIMS = {
         "exp(-i A(x)B) exactly (projector-splitting exactness for a rank-one generator inside the window) and the Krylov accuracy are "
         "not mechanised; they are covered by the search, which compares simulator.run(get_state=True) with Qiskit's Operator on random "
         "circuits over the full gate set, both orientations, all built-in initial states: amplitudes up to global phase and all one- and "
-        "adjacent two-site Pauli expectation values. Extended: theorem that contracting a one-site operator with a site tensor acts exactly on every amplitude (any ring, any chain); operator-identity tie per executed two-qubit gate (exp(-i generator) handed to the windowed TDVP = that gate's unitary incl. qubit order); repetition families, deep 8/9-qubit circuits, shuffled observable listings.",
+        "adjacent two-site Pauli expectation values. Extended: theorem that contracting a one-site operator with a site tensor acts exactly on every amplitude (any ring, any chain); operator-identity tie per executed two-qubit gate (exp(-i generator) handed to the windowed TDVP = that gate's unitary incl. qubit order); repetition families, deep 8/9-qubit circuits, shuffled observable listings. Products of two different Paulis among the observables.",
         COMMON_NOTE + "Axioms: closed under the global context for the scheduling theorems; the real-number axioms for the C18 part.",
         "DESIGN.md §3 C02"),
     "C11": (
@@ -138,7 +138,7 @@ CLAIMS = {
         "checked on the dense vector. The search enumerates the WHOLE outcome tree of one-step trajectories (TJM order 1, order 2, "
         "MCWF) with the probabilities the code itself uses and compares the average with the dense Lindblad solution at dt and dt/2 "
         "(local error must fall ~4x) and under reversal of the process list. PARTIAL: 'first-order consistent + symmetric "
-        "composition => global O(dt^2) at fixed step count' and the exponentials themselves are not mechanised. Extended: the dissipation sweep is modelled (every process damped exactly once at its own site; theorem + operator-identity trace of apply_dissipation against each process's own exponential), preprocess_mcwf is tied operator by operator, lists contain zero-strength entries and repeated kinds with distinct strengths.",
+        "composition => global O(dt^2) at fixed step count' and the exponentials themselves are not mechanised. Extended: the dissipation sweep is modelled (every process damped exactly once at its own site; theorem + operator-identity trace of apply_dissipation against each process's own exponential), preprocess_mcwf is tied operator by operator, lists contain zero-strength entries and repeated kinds with distinct strengths. One unravelling step averaged over its branches = Lindblad generator to first order, for every list of jump operators, in every ring with an anti-involution (LinAlg/Unravel.v).",
         COMMON_NOTE + "Axioms: standard-library real-number axioms for the theorems over R.",
         "DESIGN.md §3 C01"),
     "C03": (
@@ -149,7 +149,7 @@ CLAIMS = {
         "processes the model selects, in order (random circuits x random lists with duplicates and unsorted sites). The search "
         "enumerates the whole outcome tree of circuits with <= 2 two-qubit gates and compares the average with 'exact gate, then "
         "unit-time Lindblad channel of the local processes' at strengths g and g/2 (error must fall ~4x). PARTIAL: the O(g^2) remainder "
-        "and the exactness of gate application (C02) are not mechanised. Extended: dissipation sweep model/theorems and trace at unit step as in C01.",
+        "and the exactness of gate application (C02) are not mechanised. Extended: dissipation sweep model/theorems and trace at unit step as in C01. First-order unravelling theorem as in C01.",
         COMMON_NOTE + "Axioms: standard-library real-number axioms for the theorems over R.",
         "DESIGN.md §3 C03"),
     "C06": (
@@ -160,7 +160,7 @@ CLAIMS = {
         "index and the signs of <Z_i> reported by TJM order 1/2, MCWF and Lindblad (t=0 and after evolution under a site-diagonal "
         "Hamiltonian) vs the model. Search: the solvers on asymmetric initial states (basis strings, Neel, wall) with random "
         "Hamiltonians and one-site noise against the dense master equation / unitary evolution. PARTIAL: RK45 meeting its "
-        "tolerance and the time-stepping error of TJM/MCWF are not mechanised (tolerances 2e-4 / 5e-3). Extended: two-site operator embedding (pair_digit) with theorem and tie through the four embedding front-ends; complex initial states, Y observables, two-site observables and processes in the search.",
+        "tolerance and the time-stepping error of TJM/MCWF are not mechanised (tolerances 2e-4 / 5e-3). Extended: two-site operator embedding (pair_digit) with theorem and tie through the four embedding front-ends; complex initial states, Y observables, two-site observables and processes in the search. Liouvillian tie (generator integrated by the Lindblad back-end vs dense master equation, switched-off entries); mixed two-site observables.",
         COMMON_NOTE,
         "DESIGN.md §3 C06"),
     "C04": (
